@@ -459,6 +459,17 @@ func (g *G) constOf(t *am.Type, depth int) *am.Const {
 			return &am.Const{K: am.CChars, T: t, Chars: string(bs)}
 		}
 		if t.Len == 0 {
+			// an array without elements: `zeroinitializer`, `[]`, or `c""` for bytes
+			switch g.intn("emptyarr", 3) {
+			case 0:
+				g.feat("const/array-empty")
+				return &am.Const{K: am.CArray, T: t}
+			case 1:
+				if t.Elem.K == am.Int && t.Elem.Bits == 8 {
+					g.feat("const/chararray-empty")
+					return &am.Const{K: am.CChars, T: t}
+				}
+			}
 			return &am.Const{K: am.CZero, T: t}
 		}
 		c := &am.Const{K: am.CArray, T: t}
